@@ -356,3 +356,76 @@ def run_argeval(P, rep, rule="R-ARGEVAL"):
     if not bad:
         rep.ok(rule, "evaluate sites", "-", "%d evaluate/try_evaluate calls; each takes the function's own runtime parameter / captured runtime" % n)
     rep.count(rule + ".sites", n)
+
+
+# ---------------------------------------------------------------------------------------
+# R-ARGLOUD: an include/render argument that does not resolve is an error, not a silently missing binding
+
+def run_args_loud(P, rep, rule="R-ARGLOUD"):
+    """In the include / render tags every `try_evaluate` of an argument expression is turned into an error
+    (`.ok_or_else(..)` / `.ok_or(..)` followed by `?`): an unresolvable argument is never skipped, because a skipped
+    argument lets the partial see an outer binding of the same name."""
+    from origins import SelfOrigins
+    keys = ["<liquid_lib::stdlib::tags::include_tag::Include as liquid_core::runtime::renderable::Renderable>::render_to",
+            "<liquid_lib::stdlib::tags::render_tag::Render as liquid_core::runtime::renderable::Renderable>::render_to",
+            "<liquid_lib::jekyll::include_tag::Include as liquid_core::runtime::renderable::Renderable>::render_to"]
+    for key in keys:
+        fns = P.by_key(key)
+        if len(fns) != 1:
+            rep.anchor_missing(rule, key)
+            continue
+        root = fns[0]
+        k = 0
+        for fn, _ in SelfOrigins(P, root, seed={}).all_bodies():
+            for bi, t in P.calls(fn):
+                f = t.get("f")
+                if not f or f["id"].rsplit("::", 1)[1] != "try_evaluate" or "Expression" not in f["name"]:
+                    continue
+                site = "%s try_evaluate#%d" % (key.split(" as ")[0].lstrip("<").rsplit("::", 2)[-2] + "::" + key.split(" as ")[0].rsplit("::", 1)[-1], k)
+                k += 1
+                holder = t["d"][0]
+                ok = False
+                opt = {holder}
+                grew = True
+                while grew:
+                    grew = False
+                    for b2, t2 in P.calls(fn):
+                        a0 = op_local(t2["args"][0]) if t2.get("args") else None
+                        if a0 and a0[0] in opt and t2.get("f") and not t2["d"][1] and t2["d"][0] not in opt \
+                                and t2["f"]["id"].rsplit("::", 1)[1] in ("map", "as_ref", "cloned", "copied", "inspect") and "Option" in t2["f"]["name"]:
+                            opt.add(t2["d"][0])
+                            grew = True
+                for b2, t2 in P.calls(fn):
+                    a0 = op_local(t2["args"][0]) if t2.get("args") else None
+                    if a0 and a0[0] in opt and t2.get("f") and t2["f"]["id"].rsplit("::", 1)[1] in ("ok_or_else", "ok_or"):
+                        r2 = t2["d"][0]
+                        # the Result reaches a `?` (possibly through error adapters / map)
+                        hs = {r2}
+                        changed = True
+                        while changed:
+                            changed = False
+                            for b3, t3 in P.calls(fn):
+                                a3 = op_local(t3["args"][0]) if t3.get("args") else None
+                                if a3 and a3[0] in hs and t3.get("f") and not t3["d"][1] and t3["d"][0] not in hs:
+                                    if t3["f"]["id"].endswith("Try::branch"):
+                                        ok = True
+                                    elif t3["f"]["id"].rsplit("::", 1)[1] in ("map", "map_err", "trace", "trace_with", "context_key", "value_with", "replace", "and_then"):
+                                        hs.add(t3["d"][0])
+                                        changed = True
+                        # or it is what a closure returns (`.map(|..| ..try_evaluate(..).ok_or_else(..)).collect::<Result<..>>()?`)
+                        if fn.kind == "closure":
+                            for b3, t3 in P.calls(fn):
+                                if t3["d"][0] == 0 and not t3["d"][1] and op_local(t3["args"][0]) and op_local(t3["args"][0])[0] in hs:
+                                    ok = True
+                            if 0 in hs:
+                                ok = True
+                            for blk in fn.blocks:
+                                for st_ in blk["s"]:
+                                    if st_[0] == "a" and st_[1][0] == 0 and not st_[1][1] and st_[2]["k"] == "use" and op_local(st_[2]["o"]) and op_local(st_[2]["o"])[0] in hs:
+                                        ok = True
+                if ok:
+                    rep.ok(rule, site, P.where(fn, t["line"]), "try_evaluate(..).ok_or_else(error)? — an unresolvable argument fails the tag")
+                else:
+                    rep.viol(rule, site, P.where(fn, t["line"]),
+                             "the optional result of an argument's try_evaluate is not turned into an error: an argument that does not resolve is skipped, "
+                             "and the partial then sees whatever outer binding has that name")
